@@ -321,6 +321,46 @@ def build(tier):
         P.contract(MUT + "activation_mutation", variant=tag, setup=act_setup, params={}, requires=[], frame_fields=False,
                    ensures=["act_post(result)"], replay="c02:coherent")
 
+    # parameter mutation: exactly the policy network(s) are replaced by their noised versions (member by member for a list), nothing else
+    # is touched, the optimizers are rebuilt over the final networks and the agent reports "param"
+    par_log = []
+    for layout in ("single", "list"):
+        def par_setup(ex, st, fr, layout=layout):
+            par_log.clear()
+            ind = Obj("model.Agent", label="individual")
+            pol = NetA("actor", "ReLU") if layout == "single" else [NetA(f"actors[{i}]", "ReLU") for i in range(3)]
+            other = NetA("critic", "ReLU")
+            ind.fields.update(dict(registry=Obj("agilerl.algorithms.core.registry.MutationRegistry", {"policy": "actor" if layout == "single" else "actors"}, label="registry"),
+                                   critic=other, mut=None))
+            ind.fields["actor" if layout == "single" else "actors"] = pol
+            slf = Obj(MUT[:-1] if MUT.endswith(".") else MUT, label="self")
+
+            def noised(ex, st, a, k):
+                new = NetA(a[0].name + "+noise", a[0].activation)
+                par_log.append(("noised", a[0], new))
+                return new
+            slf.fields.update(dict(accelerator=None, to_device=Fn(model=lambda ex, st, a, k: a[0], name="to_device"),
+                                   classic_parameter_mutation=Fn(model=noised, name="classic_parameter_mutation"),
+                                   reinit_opt=Fn(model=lambda ex, st, a, k: par_log.append(("reinit_opt", a[0].fields.get("actor", a[0].fields.get("actors")))), name="reinit_opt")))
+            st.locals.update(dict(self=slf, individual=ind))
+            par_setup.state = (ind, pol, other)
+
+        def par_post(res, layout=layout):
+            ind, pol, other = par_setup.state
+            if res is not ind or ind.fields["mut"] != "param" or ind.fields["critic"] is not other:
+                return z3.BoolVal(False)
+            now = ind.fields["actor" if layout == "single" else "actors"]
+            noised = [e for e in par_log if e[0] == "noised"]
+            olds = [pol] if layout == "single" else list(pol)
+            news = [now] if layout == "single" else (list(now) if isinstance(now, list) else None)
+            ok = (news is not None and len(news) == len(olds) and len(noised) == len(olds)
+                  and all(e[1] is o and e[2] is n for e, o, n in zip(noised, olds, news))
+                  and par_log[-1][0] == "reinit_opt" and par_log[-1][1] is now)
+            return z3.BoolVal(bool(ok))
+        P.specns["par_post_" + layout] = par_post
+        P.contract(MUT + "parameter_mutation", variant=layout, setup=par_setup, params={}, requires=[], frame_fields=False,
+                   ensures=[f"par_post_{layout}(result)"], replay="c02:coherent")
+
     # multi-agent layout: the shared/target networks are a LIST rebuilt member by member from the list of (mutated) eval networks
     rebuilt_src = []
 
@@ -346,7 +386,7 @@ def build(tier):
     P.trusted += ["network mocks: a network records the (method, kwargs) it is called with; the policy's mutation may fall back and returns its arguments",
                   "torch.optim constructor contract (C06)"]
     P.assumptions += ["accelerator is None", "two critics / two sub-agents in the multi-agent variant (structure concrete)"]
-    P.uncovered += ["parameter and activation mutations, Mutations.mutation() dispatch and population order (native adapter only)",
+    P.uncovered += ["classic_parameter_mutation itself (which weights are noised and by how much) - native adapter only",
                     "torch.compile prefixes in reinit_from_mutated (remove_compile_prefix=True)",
                     "a learn step really moves the parameters (autograd)"]
     return P
